@@ -1,4 +1,5 @@
 import Driver.C18
+import Driver.C05
 open Lean Driver
 
 def dispatch (j : Json) : R Json := do
@@ -6,6 +7,7 @@ def dispatch (j : Json) : R Json := do
   let op ← strF j "op"
   match p with
   | "C18" => Driver.C18.handle op j
+  | "C05" => Driver.C05.handle op j
   | _ => throw s!"unknown property {p}"
 
 partial def loop (h : IO.FS.Stream) (out : IO.FS.Stream) : IO Unit := do
